@@ -68,6 +68,9 @@ CHECKS = {
  "C21": (E2, "exhaustive preemption-bounded schedule exploration of a handle cancelled through its token by another thread at every schedulable moment, with and without a third handle that overlaps",
          "Thread A runs 1-2 requests (acyclic and fixpoint programs), thread B calls cancel() once, an optional thread C requests an overlapping query; afterwards A repeats its requests twice. In every schedule: A's results are the reference or Cancelled::Local, at most one computation is cancelled per cancel(), the request after a cancelled one runs normally, no fixpoint activation is unwound by the cancellation, C always gets the reference (never Local / PropagatedPanic).",
          "CancellationToken uses a std atomic that is not a scheduling point; the cancelling thread yields once before cancel(), so the cancellation can land at every scheduling point of A within the preemption bound.", "5/C21"),
+ "C24": (E2, "exhaustive preemption-bounded schedule exploration of threads creating inputs, tracked structs and interned values on their own clones while handles are dropped and re-cloned; pairwise-distinctness and read-back oracle",
+         "Seven harnesses: inputs created on fresh clones; a 126/128 page left behind by a dropped handle so that the page-full transition and the hand-over of the unfilled page fall inside the explored window; clones dropped and re-created mid-run; tracked structs created by two creators (and by the same creator) on two threads; interned values; a 3-thread mix. In every schedule (k=2, 1 for the larger ones; thorough +1) all identities of one kind are pairwise distinct across threads and every identity reads back the fields it was created with.",
+         "As C16: page allocation goes through salsa's sync shim (atomics + table mutex), boxcar internals execute atomically between scheduling points.", "5/C24"),
 }
 
 NOT_YET = {}
